@@ -44,6 +44,7 @@ func init() {
 		"Yield":       func(fr *frame, args []value) value { fr.i.yield(); return nil },
 		"Preemptions": vxPreemptions,
 		"Eq":          vxEq,
+		"Chdir":       func(fr *frame, args []value) value { return nil },
 		"TestFileBase": func(fr *frame, args []value) value { return "x_test" },
 		"TestFileDir": func(fr *frame, args []value) value { return "/pkg" },
 		"YAMLAssume":  func(fr *frame, args []value) value { fr.i.path.extra["yamlassume"] = fr.i.truth(args[0]); return nil },
